@@ -56,7 +56,8 @@ def build_harness(std=False):
         if not os.path.exists(os.path.join(cdir, f)) and os.path.exists(os.path.join(common.REPO, f)):
             shutil.copy(os.path.join(common.REPO, f), os.path.join(cdir, f))
     tdir = common.target_dir(TARGET_STD)
-    rc, lg = common.sh(["cargo", "build", "--offline", "--release", "--no-default-features"], cwd=cdir,
+    rc, lg = common.sh(["cargo", "build", "--offline", "--release", "--no-default-features"] +
+                       (["--features", "fetchtrace"] if has_h10() else []), cwd=cdir,
                        timeout=2400, env={"CARGO_TARGET_DIR": tdir, "RUSTFLAGS": f"--cfg {common.GUARD}"})
     if rc != 0:
         raise common.CheckError("cargo build harness-par (OS threads) failed:\n" + lg[-3000:])
@@ -105,8 +106,8 @@ def fetch_stage(ctx, harness, driver, out_root, own_kinds):
         raise common.CheckError("CFetch2/Model.v does not compile:\n" + logm[-2000:])
     exe = build_replay2()
     quick = ctx.tier == "quick"
-    ncases = 20 if quick else 120
-    iters = 150 if quick else 400
+    ncases = 20 if quick else 60
+    iters = 150 if quick else 300
     cases = list(pe.corpus("C16-static")) + pe.generate(ctx.seed, "static-low", ncases, "quick" if quick else "thorough", prefix="f")
     spec = pe.specification(cases, driver)
     res, tdirs = {}, []
@@ -116,6 +117,14 @@ def fetch_stage(ctx, harness, driver, out_root, own_kinds):
         out, hung = pe.run_harness(cases, harness, iters, sched, ctx.seed, trace_dir=td, trace_cap=10 ** 9,
                                    fetch_trace=True)
         res[sched] = (out, hung)
+        tdirs.append(td)
+    if not quick:
+        # the same programs on OS threads (no shuttle): the process-wide order mutex of H10 makes
+        # operation + record atomic, the interleavings are the machine's
+        td = os.path.join(out_root, "ft-os")
+        os.makedirs(td, exist_ok=True)
+        res["os"] = pe.run_harness(cases, build_harness(std=True), iters, "os", ctx.seed, trace_dir=td,
+                                   trace_cap=10 ** 9, fetch_trace=True)
         tdirs.append(td)
     fnd = findings_for(cases, spec, res, "readers", ("values", "reference", "failure", "exec", "harness"))
     herr = [x for x in fnd if x[2]["kind"] == "harness"]
@@ -136,6 +145,7 @@ def fetch_stage(ctx, harness, driver, out_root, own_kinds):
     cov = {
         "fetch_replay": "every explored schedule of the static-low programs replayed step by step through the extracted CFetch2 model",
         "fetch_cases": len(cases), "fetch_iterations_per_case_and_scheduler": iters,
+        "fetch_schedulers": list(res),
         "fetch_traces_replayed": files, "fetch_traces_ok": okn, "fetch_trace_mismatches": mism,
         "fetch_model_steps_replayed": steps,
         "fetch_schedules_with_a_real_wait": sum(v["with_wait"] for v in st.values()),
@@ -246,6 +256,16 @@ def replay_generic(ctx, rp, std=False):
     okm, _ = common.coq_make(["Core/Model.vo", "Core/Spec.vo", "Core/Dsl.vo"])
     driver = common.build_ocaml_core()
     case = rp.get("case")
+    if not case and rp.get("trace_files") and rp.get("trace_case"):
+        # a recorded trace (H2 + H10) the CFetch2 model cannot follow: replay the kept segments again
+        common.coq_make(["CFetch2/Model.vo"])
+        exe = build_replay2()
+        cf = os.path.join(common.BUILD, "cases", f"replay-fetch-{ctx.prop}.txt")
+        os.makedirs(os.path.dirname(cf), exist_ok=True)
+        open(cf, "w").write(rp["trace_case"] + "\n")
+        rc, lg = common.sh([exe, cf, os.path.dirname(rp["trace_files"][0])])
+        print("\n".join(l for l in lg.split("\n") if l.startswith(("MISMATCH", "OK", "TOTAL2", "SKIPPED")))[:3000])
+        return 1 if rc != 0 else 0
     if not case:
         print("no failing schedule was recorded:", json.dumps(rp.get("broken") or rp.get("first_mismatch"))[:2000])
         return 1
